@@ -27,6 +27,17 @@ CHECKS["C16"] = {
     "explanation": "Structural, exhaustive over match arms: Display arms are decoded from the compiled format templates and matched against the decision tree of FromStr (string literal comparisons and the parse path); identifier conversions and PartialEq are checked arm by arm against the canonical code classes.",
 }
 
+CHECKS["C05"] = {
+    "module": "rules_c05",
+    "level": "translation_validation",
+    "quick_fs": ["default"],
+    "thorough_fs": ["default", "checks", "no_copy_impls", "both"],
+    "technique": "exhaustive comparison of const-evaluated tables with an independent reference definition; MIR path rules for table functions and USE_TABLE plumbing",
+    "claim": "Exhaustive translation validation of all constant table data: each of the 2*(512+2048+4096) decode entries equals (value, length) of the first codeword of that look-ahead window under the reference definition of gamma/delta/zeta3 (or the missing sentinel when no whole codeword fits), each of the 2*(64+1024+1024) encode entries and 2112 LEN entries equals the reference codeword/length; sentinels cannot collide; hit lengths <= READ_BITS. Plus structural rules on every path of the 18 table functions (peek own READ_BITS, index own tables of own endianness, skip exactly the returned length on the hit path only, no stream effect on miss/peek-error) and of the 14 *_param methods and 20+ parameterless defaults (table branch only under the const flag, same default_* fallback with same arguments). Does not decide that peek_bits itself returns the right bits (C02) nor look-ahead sufficiency (T4, pending).",
+    "note": "Trusted: rustc const evaluation, the exporter, refcodes.py (reference definitions written from the module docs).",
+    "explanation": "tables vs reference definitions (exhaustive) + MIR path rules",
+}
+
 NOT_APPLICABLE = {
     "C17": "a bijection over all values of six integer widths is a statement about (x>>1)^-(x&1) on 2^n values: the generic body is a chain of operator-trait calls with no table, pairing, ordering or ownership structure to check; proving the identity needs bit-vector reasoning (a solver) or running it, both outside static analysis (DESIGN.md section 6)",
 }
